@@ -10,6 +10,9 @@ def sgn (neg : Bool) : ℚ := if neg then -1 else 1
 
 theorem sgn_cases (neg : Bool) : sgn neg = 1 ∨ sgn neg = -1 := by cases neg <;> simp [sgn]
 
+/-- the exact rational an accepted string denotes: (-1)^neg · mantissa · base^(exponent − fraction length) -/
+def Parsed.value (p : Parsed) : ℚ := sgn p.neg * (p.mant : ℚ) * (p.base : ℚ) ^ p.scale
+
 theorem limbLen_le_of_lt {v P : Nat} (h : v < B ^ P) : limbLen v ≤ P := by
   by_cases hv : v = 0
   · subst hv; simp [limbLen]
